@@ -1101,11 +1101,16 @@ Section invariant.
   Lemma Inv_process_assets pr c done : Inv pr -> Inv (process_assets pr c done).
   Proof.
     intros HI. unfold process_assets. apply foldl_inv; [exact HI|].
-    intros a [[[c' a0] v] lst] _ Ha. dm; [|exact Ha]. cbv zeta. unfold insert_asset. do 2 peel_irr.
-    apply Inv_set_pending; [irr|]. intros c1 a1 o1 Hin. cbn [d_pending set] in Hin.
-    apply (i_pend a Ha). destruct lst.
-    - apply In_filter_std in Hin as [Hin _]. exact Hin.
-    - eapply In_remove1_pending. exact Hin.
+    intros a [[[c' a0] v] lst] _ Ha. dm; [|exact Ha]. cbv zeta. destruct v as [v|].
+    - unfold insert_asset. do 2 peel_irr.
+      apply Inv_set_pending; [irr|]. intros c1 a1 o1 Hin. cbn [d_pending set] in Hin.
+      apply (i_pend a Ha). destruct lst.
+      + apply In_filter_std in Hin as [Hin _]. exact Hin.
+      + eapply In_remove1_pending. exact Hin.
+    - apply Inv_set_pending; [exact Ha|]. intros c1 a1 o1 Hin. cbn [d_pending set] in Hin.
+      apply (i_pend a Ha). destruct lst.
+      + apply In_filter_std in Hin as [Hin _]. exact Hin.
+      + eapply In_remove1_pending. exact Hin.
   Qed.
 
   Lemma Inv_promote_reader pr : Inv pr -> Inv (promote_reader pr).
